@@ -48,6 +48,7 @@ def setup(d):
         f"CREATE EXTERNAL TABLE e_part (c1 BIGINT, c2 BIGINT, p BIGINT) STORED AS CSV PARTITIONED BY (p) LOCATION '{d}/part/' OPTIONS ('format.has_header' 'true')",
         f"CREATE EXTERNAL TABLE e_pq STORED AS PARQUET LOCATION '{d}/pq/'",
         "CREATE VIEW v1 AS SELECT c1, c2 + 1 AS d FROM t1 WHERE c1 IS NOT NULL",
+        "CREATE VIEW v3 AS SELECT c2 AS x, c1 AS y FROM t2",
         f"CREATE EXTERNAL TABLE s_csv (c1 BIGINT, c2 BIGINT, c3 VARCHAR) STORED AS CSV LOCATION '{d}/out/s_csv/' OPTIONS ('format.has_header' 'true')",
         f"CREATE EXTERNAL TABLE s_json (c1 BIGINT, c2 BIGINT) STORED AS JSON LOCATION '{d}/out/s_json/'",
         f"CREATE EXTERNAL TABLE s_pq (c1 BIGINT, c2 BIGINT, c3 VARCHAR) STORED AS PARQUET LOCATION '{d}/out/s_pq/'",
@@ -170,6 +171,21 @@ def statements(d):
     q("SELECT c1 AS \"Weird Col\", c2 AS \"a\"\"b\", c3 AS \"select\", 'lit' AS \"MiXed\" FROM t1")
     q("SELECT \"Weird Col\" + 1 AS x FROM (SELECT c1 AS \"Weird Col\" FROM t1) AS \"Sub Q\" WHERE \"Sub Q\".\"Weird Col\" > 0")
     q("SELECT 1.5 AS a, 1e3 AS b, -0.25 AS c, 9223372036854775807 AS d, TRUE AS e, NULL AS f, 'x' AS g, DATE '2020-02-29' AS h, TIMESTAMP '2020-01-01 10:00:00' AS i, INTERVAL '1 day 2 hours' AS j, X'0aff' AS k, CAST(CAST(1.25 AS DECIMAL(5,2)) + 1 AS VARCHAR) AS l")
+    # ---- derived tables / CTEs / views whose projection only renames (permuted, repeated, subset) an inner projection
+    q("SELECT c.x, c.y FROM (SELECT b.c2 AS x, b.c1 AS y FROM (SELECT c1, c2 FROM t2) AS b) AS c")
+    q("SELECT c.x, c.y FROM (SELECT b.c1 AS x, b.c1 AS y FROM (SELECT c1, c2 FROM t2) AS b) AS c")
+    q("SELECT c.x, c.y FROM (SELECT b.c2 AS x, b.c2 AS y FROM (SELECT c1, c2 FROM t2) AS b) AS c")
+    q("SELECT c.x FROM (SELECT b.c2 AS x FROM (SELECT c1, c2 FROM t2) AS b) AS c")
+    q("SELECT c.p, c.q, c.r FROM (SELECT b.c3 AS p, b.c1 AS q, b.c2 AS r FROM (SELECT c1, c2, c3 FROM t1) AS b) AS c")
+    q("SELECT c.p, c.q, c.r, c.s FROM (SELECT b.c2 AS p, b.c1 AS q, b.c2 AS r, b.c3 AS s FROM (SELECT c1, c2, c3 FROM t1) AS b) AS c")
+    q("SELECT c.y, c.x FROM (SELECT b.c2 AS x, b.c1 AS y FROM (SELECT c1, c2 FROM t2) AS b) AS c WHERE c.x > 0")
+    q("WITH b AS (SELECT c1, c2 FROM t2), c AS (SELECT c2 AS x, c1 AS y FROM b) SELECT c.x, c.y FROM c")
+    q("WITH c(x, y) AS (SELECT c2, c1 FROM t2) SELECT x, y FROM c")
+    q("WITH b AS (SELECT c1, c2, c3 FROM t1), c AS (SELECT c3 AS p, c1 AS q, c1 AS r FROM b) SELECT p, q, r FROM c")
+    q("SELECT c.x, c.y FROM (SELECT c1, c2 FROM t2) AS c(y, x)")
+    q("SELECT v3.x, v3.y FROM v3")
+    q("SELECT c.a, c.b FROM (SELECT v3.y AS a, v3.x AS b FROM v3) AS c")
+    q("SELECT c.x, d.y FROM (SELECT b.c2 AS x, b.c1 AS y FROM (SELECT c1, c2 FROM t2) AS b) AS c JOIN (SELECT e.c1 AS y, e.c2 AS x FROM (SELECT c1, c2 FROM t2) AS e) AS d ON c.y = d.y")
     # ---- other nodes: values, unnest, recursive, explain/analyze, prepare, DDL, DML, copy
     q("SELECT * FROM (VALUES (1, 'a', TRUE), (2, NULL, FALSE), (NULL, 'c', NULL)) AS v(x, y, z)")
     q("SELECT unnest(make_array(c1, c2)) AS u, c1 FROM t2")
@@ -208,7 +224,7 @@ def statements(d):
 
 
 API = ["repartition_rr", "repartition_hash", "repartition_distribute", "sort_fetch", "unnest_preserve_nulls", "unnest_drop_nulls", "join_null_equal",
-       "join_null_unequal", "join_right_semi", "join_right_anti", "join_left_mark", "alias_metadata", "distinct_on_api"]
+       "join_null_unequal", "join_right_semi", "join_right_anti", "join_left_mark", "alias_metadata", "distinct_on_api", "dict_struct_literals"]
 
 
 def cases(workdir, base_corpus):
@@ -222,7 +238,7 @@ def cases(workdir, base_corpus):
     for i, sql in enumerate(base_corpus):
         out.append({"id": f"b{i}", "sql": sql, "tables": TABLES, "corpus": True, "flags": [], "setup": st})
     for name in API:
-        out.append({"id": "api-" + name, "sql": "-- api: " + name, "api": name, "tables": TABLES, "corpus": True, "flags": ["ordered"] if name == "sort_fetch" else [], "setup": []})
+        out.append({"id": "api-" + name, "sql": "-- api: " + name, "api": name, "tables": TABLES, "corpus": True, "flags": ["ordered"] if name == "sort_fetch" else (["count"] if name == "dict_struct_literals" else []), "setup": []})
     return out
 
 
